@@ -78,6 +78,13 @@ RISK_MODELS = [
 ]
 
 
+# account life cycle (Life.tla): close / move / settle in every order on top of the ledger actions, from the risk seed
+LIFE_MODELS = [
+    {"name": "life", "module": "MC_Life.tla", "cfg": {"quick": "MC_LifeQuick.cfg", "thorough": "MC_LifeThorough.cfg"},
+     "setup": "setups/riskmodel.json", "init_from_setup": True, "timeout": {"quick": 900, "thorough": 10000}},
+]
+
+
 RISKCFG_MODELS = [
     {"name": "riskcfg", "module": "MC_RiskCfg.tla", "cfg": {"quick": "MC_RiskCfgQuick.cfg", "thorough": "MC_RiskCfgThorough.cfg"},
      "setup": "setups/riskcfg.json", "init_from_setup": True, "timeout": {"quick": 900, "thorough": 10000}},
@@ -192,10 +199,10 @@ PROPS = {
                       LIQ_DRIVERS + RISK_DRIVERS + ADMIN_DRIVERS + STAKED_DRIVERS + KAMINO_DRIVERS, models=RISK_MODELS + CONFIG_MODELS + RISKCFG_MODELS),
     "C14": risk_prop2(["deposit", "withdraw", "borrow", "repay", "liquidate", "bankruptcy", "propagate_fee"], LIQ_DRIVERS + RISK_DRIVERS + EDGE_DRIVERS, models=GATE_MODELS),
     "C01": dict(ledger_prop(), drivers=LEDGER_DRIVERS + EDGE_DRIVERS + LIQ_DRIVERS),
-    "C02": dict(ledger_prop(extra_ops=["purge", "transfer_account", "kamino_deposit", "kamino_withdraw", "drift_deposit", "drift_withdraw", "solend_deposit", "solend_withdraw"]), drivers=LEDGER_DRIVERS + LIQ_DRIVERS + ADMIN_DRIVERS + KAMINO_DRIVERS + EDGE_DRIVERS, models=LEDGER_MODELS + VENUE_MODELS),
+    "C02": dict(ledger_prop(extra_ops=["purge", "transfer_account", "kamino_deposit", "kamino_withdraw", "drift_deposit", "drift_withdraw", "solend_deposit", "solend_withdraw"]), drivers=LEDGER_DRIVERS + LIQ_DRIVERS + ADMIN_DRIVERS + KAMINO_DRIVERS + EDGE_DRIVERS, models=LEDGER_MODELS + VENUE_MODELS + LIFE_MODELS),
     "C03": dict(ledger_prop(extra_ops=["kamino_deposit", "kamino_withdraw", "drift_deposit", "drift_withdraw", "solend_deposit", "solend_withdraw"]), drivers=LEDGER_DRIVERS + KAMINO_DRIVERS + EDGE_DRIVERS, models=LEDGER_MODELS + VENUE_MODELS),
     "C06": dict(ledger_prop(), drivers=LEDGER_DRIVERS + EDGE_DRIVERS + [{"name": "caps", "args": {"quick": [200], "thorough": [4000]}}]),
-    "C16": dict(ledger_prop(), models=LEDGER_MODELS + PDA_MODELS, drivers=LEDGER_DRIVERS + [{"name": "struct", "args": {"quick": [60], "thorough": [2000]}}] + LIQ_DRIVERS + STAKED_DRIVERS + ADMIN_DRIVERS + KAMINO_DRIVERS + EDGE_DRIVERS),
+    "C16": dict(ledger_prop(extra_ops=["close_account", "transfer_account"]), models=LEDGER_MODELS + PDA_MODELS + LIFE_MODELS, drivers=LEDGER_DRIVERS + [{"name": "struct", "args": {"quick": [60], "thorough": [2000]}}] + LIQ_DRIVERS + STAKED_DRIVERS + ADMIN_DRIVERS + KAMINO_DRIVERS + EDGE_DRIVERS),
     "C17": dict(ledger_prop(), drivers=LEDGER_DRIVERS + EDGE_DRIVERS + [{"name": "caps", "args": {"quick": [300], "thorough": [8000]}}]),
     "C15": {
         "models": [
